@@ -47,7 +47,7 @@ class Ctx:
         self.D = D
         self.P = params
         self.obs = []
-        self.num = Num(D.symbolic)
+        self.num = D.num() if hasattr(D, "num") else Num(D.symbolic)
         self.symbolic = D.symbolic
 
     # -- obligations
@@ -59,13 +59,23 @@ class Ctx:
             self.obs.append(Ob("exc", label, exc=TypeError(f"result is not a weight of the semiring: {impl!r} ({type(impl).__name__})"),
                                sig=exc_sig or sig, detail="not-a-weight"))
             return
+        hs = [self.gt0(p) for p in pivots] + list(hyps)
+        if isinstance(it, tuple):  # matrix-valued weights: one obligation per entry
+            for i, (a, b) in enumerate(zip(it, ref)):
+                if self.P.get("canary"):
+                    b = b + b + 1
+                self.obs.append(Ob("eq", f"{label} [entry {i}]", impl=a, ref=b, hyps=hs, sig=sig))
+            return
         if self.P.get("canary"):
             ref = ref + ref + self.num.one  # deliberately wrong oracle: the run must report it
-        hs = [self.gt0(p) for p in pivots] + list(hyps)
         self.obs.append(Ob("eq", label, impl=it, ref=ref, hyps=hs, sig=sig))
 
     def eq_terms(self, label, t1, t2, hyps=(), sig=None, tol=0):
         "both sides already are numbers of the domain (z3 terms / python numbers)"
+        if isinstance(t1, tuple) and isinstance(t2, tuple):  # matrix-valued: one obligation per entry
+            for i, (a, b) in enumerate(zip(t1, t2)):
+                self.eq_terms(f"{label} [entry {i}]", a, b, hyps=hyps, sig=sig, tol=tol)
+            return
         if self.P.get("canary"):
             t2 = t2 + t2 + 1
         self.obs.append(Ob("eq", label, impl=t1, ref=t2, hyps=list(hyps), sig=sig, tol=tol))
@@ -162,6 +172,8 @@ class RawDomain:
 def make_domain(domain, symbolic, values=None):
     if domain == "Raw":
         return RawDomain(symbolic, values)
+    if domain == "SM":
+        return S.SymSM() if symbolic else S.ConcSM(values)
     if domain == "SW":
         return S.SymSW() if symbolic else S.ConcSW(values)
     if domain == "SNum":
